@@ -8,6 +8,7 @@ import (
 
 	gogoproto "github.com/gogo/protobuf/proto"
 
+	"storj.io/drpc/drpcerr"
 	oldinvoke "verifharness/old017/invoke"
 	oldwire "verifharness/old017/drpcwire"
 )
@@ -115,6 +116,18 @@ func (x *e1) checkOldReader() {
 				// fatal protocol error unless the control bit tells its reader to skip it
 				if !oldKinds[p.Kind] {
 					x.viol("oldreader", fmt.Sprintf("a packet of kind %d, which the released version does not know, was emitted without the control bit", p.Kind), fmt.Sprintf("%s wire: %s", m.Name, p))
+				}
+				// the error payload layout is shared with the released version: its
+				// decoder must obtain the handler's text and code from what was emitted
+				if p.Kind == kError && m == x.monS {
+					for _, r := range x.recs {
+						if r.SID == p.Stream && r.Spec.HRet == RetErr && !r.Spec.Unknown && r.HReturned {
+							got := oldwire.UnmarshalError(p.Data)
+							if got.Error() != wantErrText(r.Spec.HErr) || drpcerr.Code(got) != r.Spec.HErr.Code {
+								x.viol("oldreader", "the released error decoder does not obtain the handler's text and code from the emitted error packet", fmt.Sprintf("rpc%d got %q code=%d want %q code=%d", r.Spec.Idx, trunc(got.Error(), 40), drpcerr.Code(got), trunc(wantErrText(r.Spec.HErr), 40), r.Spec.HErr.Code))
+							}
+						}
+					}
 				}
 			}
 		}
@@ -287,6 +300,9 @@ func (b *byzProxy) mutate(from *Endpoint, p []byte) []byte {
 		for i := range pay {
 			pay[i] = byte(ch.Pick("net", 256))
 		}
+		if k == kInvokeMD && ch.Bool("net", 0.6) {
+			pay = hostileMeta(ch)
+		}
 		q = append(q, refAppendFrame(nil, RFrame{Stream: cur, Msg: 1 << 30, Kind: k, Done: true, Data: pay})...)
 		b.hit("payload")
 	}
@@ -306,4 +322,44 @@ func validUTF8Meta(b []byte) bool {
 		}
 	}
 	return true
+}
+
+// hostileMeta: structurally plausible but malformed encodings of map<string,string>
+// (entries with one field only, truncated fixed-width fields, wrong wire types,
+// lengths pointing past the end, nested garbage).
+func hostileMeta(ch *Choices) []byte {
+	cat := [][]byte{
+		{10, 2, 10, 0},                     // entry with only the key field
+		{10, 2, 18, 0},                     // entry with only the value field
+		{10, 0},                            // empty entry
+		{10, 4, 10, 1, 'k', 18},            // value tag without length
+		{10, 5, 10, 1, 'k', 18, 9},         // value length past the end
+		{10, 3, 10, 5, 'k'},                // key length past the entry
+		{9, 1, 2, 3, 4, 5},                 // unknown fixed64 field cut short
+		{9, 1, 2, 3},                       // ... shorter than four bytes
+		{13, 1, 2},                         // unknown fixed32 field cut short
+		{8},                                // varint field without value
+		{8, 0x80, 0x80, 0x80, 0x80, 0x80, 0x80, 0x80, 0x80, 0x80, 0x80, 1}, // over-long varint
+		{10, 0x80, 0x80, 0x80, 0x80, 0x80, 0x80, 0x80, 0x80, 0x80, 1},       // huge entry length
+		{10, 6, 10, 1, 'k', 18, 1, 'v', 10}, // trailing tag
+		{10, 6, 8, 1, 10, 1, 'k', 18},       // varint field inside the entry
+		{18, 1, 'x'},                        // wrong top-level field number
+		{11, 12},                            // group wire types
+		{10, 4, 16, 1, 24, 2},               // key and value as varints
+		{10, 7, 10, 1, 'k', 18, 1, 'v', 0},  // zero tag inside the entry
+	}
+	b := append([]byte(nil), cat[ch.Pick("net", len(cat))]...)
+	if ch.Bool("net", 0.3) && len(b) > 1 {
+		b = b[:len(b)-1]
+	}
+	if ch.Bool("net", 0.3) {
+		// in front of or behind a well-formed entry
+		ok := []byte{10, 6, 10, 1, 'a', 18, 1, 'b'}
+		if ch.Bool("net", 0.5) {
+			b = append(ok, b...)
+		} else {
+			b = append(b, ok...)
+		}
+	}
+	return b
 }
